@@ -36,7 +36,7 @@ import fw
 
 NAME = 'appcfg'
 DRIVER = 'AppCfg'
-CASES = {'quick': 2000, 'thorough': 60000, 'search': 6000}
+CASES = {'quick': 4000, 'thorough': 60000, 'search': 6000}
 RULE = {
     'C13': 'random node histories (10-40 ops: manifests written/removed by the event manager incl. '
            'evict-and-place-again of one instance, FIFO delivery of the queued inotify events with '
@@ -569,8 +569,13 @@ class _World:
         self.queue.append(('created', name))
         self.prims = []
         post = self.snap()
-        self.emit('fscreate %d %d %d' % (i, g, 1 if ok else 0), post,
-                  monitor_single_ref(post, [], self.orig_app_name, 'env:fs_create'))
+        hits = monitor_single_ref(post, [], self.orig_app_name, 'env:fs_create')
+        if self.orig_app_name(cname) != name:
+            # the model abstracts container names to (instance, generation): the real naming
+            # functions must round-trip
+            hits.append(fw.Hit(clause='naming-roundtrip', call_site='appcfg.app_name',
+                               detail='%r -> %r -> %r' % (name, cname, self.orig_app_name(cname))))
+        self.emit('fscreate %d %d %d' % (i, g, 1 if ok else 0), post, hits)
 
     def fs_delete(self, i):
         name = INST[i]
